@@ -87,6 +87,9 @@ def gen_arm(g):
     delegate('w1', 1, ['none', 'capacity only', 'label only', 'both'])
     delegate('p1', 4, ['none', 'both'])
     delegate('sp1', 6, ['none', 'capacity only'])
+    # a link may carry delegations too (bandwidth split between delegations); explored on the smallest shape only
+    if shape == 'one worker':
+        delegate('l1', 5, ['none', 'capacity only'])
     if with_w2:
         delegate('g2', 10, ['none', 'label only'])
     if with_stitch:
@@ -392,20 +395,34 @@ class PartitionRekeyPartitionAgain(Contract):
         gen = NetworkXARMGraph.generate_adms
         first = h.call(gen, arm)
         c1 = self._content(first)
+        rekeyed = []
         for k, adm in ([(k, first.e[k][1]) for k in first.e] if isinstance(first, PDict) else list(first.items())):
             # (the partitions come back as plain property-graph handles; the ADM method only needs the graph interface)
             h.call(ABCADMPropertyGraph.rewrite_delegations, adm)
+            # re-keying is idempotent: doing it again (the entries already carry the graph id) changes nothing
+            keyed = self._content({k: adm} if not isinstance(first, PDict) else PDict({k: adm}))
+            h.call(ABCADMPropertyGraph.rewrite_delegations, adm)
+            rekeyed.append((keyed, self._content({k: adm} if not isinstance(first, PDict) else PDict({k: adm}))))
         second = h.call(gen, arm)
-        return (G0, c1, self._content(second))
+        return (G0, c1, self._content(second), rekeyed)
 
     @staticmethod
     def _same(pre, post):
         if not returned(post):
             return False
-        G0, c1, c2 = post.result
+        G0, c1, c2, rekeyed = post.result
         if len(c1) != len(c2):
             return False
         out = []
+        for once, twice in rekeyed:
+            (_, p1), (_, p2) = once[0], twice[0]
+            if set(p1) != set(p2):
+                return False
+            for nid in p1:
+                if set(p1[nid]) != set(p2[nid]):
+                    return False
+                for pr in p1[nid]:
+                    out.append(len(p1[nid][pr]) == len(p2[nid][pr]) and And(*[eq(x, y) for x, y in zip(p1[nid][pr], p2[nid][pr])]))
         for k, part in c1:
             alts = []
             for k2, part2 in c2:
